@@ -323,10 +323,10 @@ Proof. apply (C10_parse_sound 20). vm_compute. reflexivity. Qed.
    rules of the regenerated grammar = the specification functions of C10Ident.v, (c) implicit whitespace.
    Imports are kept inside a module: Peg.v and Grammar.v reuse short names (Ok, Seq, ...). *)
 Require Blots.Peg Blots.PegWf Blots.gen.Grammar Blots.proofs.PegGeneric Blots.proofs.PegPure Blots.proofs.PegIdent
-        Blots.proofs.PegShift Blots.proofs.PegLayout Blots.proofs.PegBlots Blots.proofs.PegNumber.
+        Blots.proofs.PegShift Blots.proofs.PegLayout Blots.proofs.PegBlots Blots.proofs.PegNumber Blots.proofs.PegString.
 Module PegLayer.
 Import Blots.Peg Blots.PegWf Blots.gen.Grammar Blots.proofs.PegGeneric Blots.proofs.PegPure Blots.proofs.PegIdent.
-Import Blots.proofs.PegShift Blots.proofs.PegLayout Blots.proofs.PegBlots.
+Import Blots.proofs.PegShift Blots.proofs.PegLayout Blots.proofs.PegBlots Blots.proofs.PegString.
 Import Blots.C10Ident Blots.gen.IdentRules.
 
 (* (a1) more fuel never changes a result other than OutOfFuel — every grammar, every rule, every text.
@@ -448,6 +448,33 @@ Proof. vm_compute. reflexivity. Qed.
 Example peg_iffy_is_a_name :
   show_res grule_name (parse blots_grammar 200 PG_identifier "iffy") = "OK (identifier 0 4)"%string.
 Proof. vm_compute. reflexivity. Qed.
+
+(* (b5) the string literal, through pest's stack (PUSH / PEEK / POP): where the text starts with a quote character
+   q the rule `string` scans character by character to the first q — there are NO escape sequences — and
+   succeeds iff that q exists: the pair `string` spans both quotes, its only inner pair `string_value` the text
+   between; the stack is left as found, ALSO on failure (POP pops before it compares).  Another first character:
+   failure.  [scan] stops only at q or at the end of the text (second theorem). *)
+Theorem C10_peg_string_rule : forall fuel a q r (s : st grule),
+  rest s = String q r -> stack_ok (stk s) -> 12 + String.length (rest s) <= fuel ->
+  call_with blots_grammar (run blots_grammar fuel) a false PG_string s
+  = if is_quote q then string_result s q r else Fail s.
+Proof. exact peg_string_rule. Qed.
+Check C10_peg_string_rule : forall fuel a q r (s : st grule),
+  rest s = String q r -> stack_ok (stk s) -> 12 + String.length (rest s) <= fuel ->
+  call_with blots_grammar (run blots_grammar fuel) a false PG_string s
+  = if is_quote q then string_result s q r else Fail s.
+Print Assumptions C10_peg_string_rule.
+
+Theorem C10_peg_string_scan_stops : forall q t, scan q t = EmptyString \/ exists r', scan q t = String q r'.
+Proof. exact scan_stops. Qed.
+Check C10_peg_string_scan_stops : forall q t, scan q t = EmptyString \/ exists r', scan q t = String q r'.
+Print Assumptions C10_peg_string_scan_stops.
+
+Example peg_string_no_escapes :
+  show_res grule_name (parse blots_grammar 300 PG_input ("x = 'it\'s'")%string) = "ERR"%string
+  /\ show_res grule_name (parse blots_grammar 300 PG_string ("'a" ++ String (Ascii.ascii_of_nat 34) "b' + 1")%string)
+     = "OK (string 0 5 (string_value 1 4))"%string.
+Proof. vm_compute. split; reflexivity. Qed.
 
 (* (c1) POSITION INDEPENDENCE, every grammar: away from the very start of the input (where SOI holds), moving
    the byte offset by d with the same remaining input and stack gives the same result with the final offset and
@@ -589,3 +616,12 @@ Definition fuel_sufficient_full : Prop :=
     wf_grammar g rules idx = true ->
     exists c, forall r text, parse g (c * (String.length text + 1) * List.length rules) r text <> OutOfFuel.
 End PegLayer.
+
+(* text -> pairs (Peg.v on gen/Grammar.v) -> items (PegToItems.v) -> AST (Pratt.v): ONE executable model of
+   `parse` + `pairs_to_expr`; the PARSE-text stream compares it with the real parser on every generated and
+   mutated program text.  An evaluated instance (blanks, a comment, two statements): *)
+Require Blots.PegToItems.
+Example peg_text_to_ast :
+  Blots.PegToItems.parse_text ("a  +  b*c  // note" ++ String (Ascii.ascii_of_nat 10) "output y = [1, 2]")
+  = "E (EBin Add (EId (hx ""61"")) (EBin Multiply (EId (hx ""62"")) (EId (hx ""63"")))) ;; O (EAssign (hx ""79"") (EList [(Cm [] (ENum (nb 0x3ff0000000000000)) None); (Cm [] (ENum (nb 0x4000000000000000)) None)]))".
+Proof. vm_compute. reflexivity. Qed.
